@@ -270,6 +270,23 @@ impl From<DynamicTable> for Decoder {
     }
 }
 
+#[cfg(all(h3_verif, not(test)))]
+impl From<DynamicTable> for Decoder {
+    fn from(table: DynamicTable) -> Self {
+        Self { table }
+    }
+}
+
+#[cfg(h3_verif)]
+impl Decoder {
+    pub fn verif_table(&self) -> &DynamicTable {
+        &self.table
+    }
+    pub fn verif_table_mut(&mut self) -> &mut DynamicTable {
+        &mut self.table
+    }
+}
+
 #[derive(PartialEq)]
 enum Instruction {
     Insert(HeaderField),
